@@ -51,9 +51,11 @@ def run(ctx):
         for _ in range(d // 10):
             t = gen_prog.op(gen_prog.A, gen_prog.q(t), gen_prog.q(b""))
         pool.append((gen.tt(t), gen.tt(b""), "deep-apply"))
+    # programs on which the ENABLE_GC roll-back has real work to do (it must never surface an internal error)
+    pool += gen_prog.gc_directed_programs()
     lines = []
     for p, e, tag in pool:
-        f = runlib.pick_flags(r, tag, 0.2)
+        f = runlib.pick_flags(r, tag, 0.2, include=FLAG["ENABLE_GC"] if tag.startswith("directed-gc") else 0)
         m = r.choice([0, 0, 1, 50, r.randrange(1, 10 ** 4), r.randrange(1, 10 ** 7), 11000000000])
         kw = {}
         k = r.random()
